@@ -1532,7 +1532,8 @@ theorem fill_fold : ∀ (l : List Nat) (st : H × List Ref),
     obtain ⟨ext, new, e1, e2, e3⟩ := ih (fill st n)
     rw [fill_eq] at e1 e2 e3 ⊢
     simp only at e1 e2
-    refine ⟨_ ++ ext, (st.1.length + 2) :: new, by rw [e1, List.append_assoc], by rw [e2]; simp, ?_⟩
+    refine ⟨[Obj.toklist [], .script st.1.length, .txout (-1) (st.1.length + 1)] ++ ext, (st.1.length + 2) :: new,
+      by rw [e1, List.append_assoc], by rw [e2]; simp, ?_⟩
     simp only [List.map_cons, List.length_cons, List.replicate_succ, List.cons.injEq]
     refine ⟨?_, e3⟩
     rw [e1]
@@ -1544,6 +1545,99 @@ theorem fill_fold : ∀ (l : List Nat) (st : H × List Ref),
     have g0 : (st.1 ++ [Obj.toklist [], .script st.1.length, .txout (-1) (st.1.length + 1)])[st.1.length]? =
         some (.toklist []) := by simp
     exact viewTxOut_some.mpr ⟨_, _, _, g2, viewScript_some.mpr ⟨_, g1, g0⟩, rfl⟩
+
+
+/-! ### the pure model in the same stages -/
+
+def modelOut (I : List TxIn) (O : List TxOut) (i base : Nat) : Except PyErr (List TxIn × List TxOut) :=
+  if base = 2 then .ok (zeroOtherSequences I i, [])
+  else if base = 3 then
+    match O[i]? with
+    | none => .error .valueError
+    | some o => .ok (zeroOtherSequences I i, List.replicate i filler ++ [o])
+  else .ok (I, O)
+
+def modelAny (I : List TxIn) (i ht : Nat) : List TxIn :=
+  if ht &&& 0x80 ≠ 0 then (match I[i]? with | some y => [y] | none => []) else I
+
+def modelTmp (t : Tx) (i : Nat) (code : List Tok) (ht : Nat) : Except PyErr Tx :=
+  match (t.inputs.map fun x => { x with scriptSig := [] })[i]? with
+  | none => .error .indexError
+  | some x =>
+    match modelOut ((t.inputs.map fun x => { x with scriptSig := [] }).set i { x with scriptSig := code })
+        t.outputs i (ht &&& 0x1f) with
+    | .error e => .error e
+    | .ok (ins2, outs) => .ok { t with inputs := modelAny ins2 i ht, outputs := outs }
+
+def finishTWith (pk : Except PyErr Bytes) (sha256 : Bytes → Bytes) (T : Tables) (tm : Tx) : Except PyErr Bytes := do
+  let ser ← tm.toBytes T false
+  let htb ← pk
+  pure (sha256 (sha256 (ser ++ htb)))
+
+def finishT (sha256 : Bytes → Bytes) (T : Tables) (ht : Nat) (tm : Tx) : Except PyErr Bytes :=
+  finishTWith (Py.pack "<i" ht) sha256 T tm
+
+theorem legacyDigest_eq (sha256 : Bytes → Bytes) (T : Tables) (t : Tx) (i : Nat) (code : List Tok) (ht : Nat) :
+    legacyDigest sha256 T t i code ht =
+      match modelTmp t i code ht with
+      | .error e => .error e
+      | .ok tm => finishT sha256 T ht tm := by
+  unfold legacyDigest modelTmp finishT finishTWith
+  dsimp only
+  cases (t.inputs.map fun x => { x with scriptSig := [] })[i]? with
+  | none => rfl
+  | some x =>
+    simp only
+    unfold modelOut
+    by_cases h2 : ht &&& 0x1f = 2
+    · simp only [h2, ↓reduceIte]; rfl
+    · by_cases h3 : ht &&& 0x1f = 3
+      · simp only [h3, ↓reduceIte]
+        cases t.outputs[i]? <;> rfl
+      · simp only [h2, h3, ↓reduceIte]; rfl
+
+def digestHWith (pk : Except PyErr Bytes) (sha256 : Bytes → Bytes) (T : Tables) (h : H) (self : Ref) (i : Nat)
+    (code : Ref) (ht : Nat) : Except PyErr (H × Bytes) := do
+  let (h', tmp, _) ← legacyDigestPrepare h self i code ht
+  let some t := viewTx h' tmp | throw PyErr.typeError
+  let ser ← t.toBytes T false
+  let htb ← pk
+  pure (h', sha256 (sha256 (ser ++ htb)))
+
+theorem digestHWith_eq (pk : Except PyErr Bytes) (sha256 : Bytes → Bytes) (T : Tables) (h : H) (self : Ref)
+    (i : Nat) (code : Ref) (ht : Nat) :
+    (digestHWith pk sha256 T h self i code ht).map (·.2) =
+      match legacyDigestPrepare h self i code ht with
+      | .error e => .error e
+      | .ok (h', tmp, _) =>
+        match viewTx h' tmp with
+        | none => .error .typeError
+        | some tm => finishTWith pk sha256 T tm := by
+  unfold digestHWith finishTWith
+  cases legacyDigestPrepare h self i code ht with
+  | error e => rfl
+  | ok p =>
+    obtain ⟨h', tmp, ws⟩ := p
+    simp only [bind, Except.bind]
+    cases viewTx h' tmp with
+    | none => rfl
+    | some tm =>
+      simp only
+      cases tm.toBytes T false with
+      | error e => rfl
+      | ok ser =>
+        simp only
+        cases pk <;> rfl
+
+theorem legacyDigestH_eq (sha256 : Bytes → Bytes) (T : Tables) (h : H) (self : Ref) (i : Nat) (code : Ref) (ht : Nat) :
+    (legacyDigestH sha256 T h self i code ht).map (·.2) =
+      match legacyDigestPrepare h self i code ht with
+      | .error e => .error e
+      | .ok (h', tmp, _) =>
+        match viewTx h' tmp with
+        | none => .error .typeError
+        | some tm => finishT sha256 T ht tm :=
+  digestHWith_eq (Py.pack "<i" ht) sha256 T h self i code ht
 
 
 end HeapLemmas
